@@ -466,6 +466,9 @@ package core
 //@ func (*ExecRuleAction).Do
 //@   ensures[C14+C04.failed_action_not_complete] actionErr ==> w.Disposition != Complete
 //@   ensures[C04.completed_action_reports_value] !actionErr ==> w.Disposition == Complete
+//@   also-modifies actionErr
+// assumed frame: running an action does not rewrite the policies of the (parsed) rule objects being walked
+//@   modifies allbut(F:core.CleanRule.Policies|F:core.RulePolicies.)
 //@ ghost queryErr bool gate
 //@ func ExecQuery
 //@   ghost-ensures queryErr == (old(queryErr) || result1 != nil)
@@ -917,3 +920,8 @@ package core
 //@   ensures[C13.execquery_result_nonnil] result1 == nil ==> result0 != nil
 //@ func (*TermIndex).Search
 //@   loop 1: invariant[C13.ti_search_smallest_in_range] 0 <= smallest && smallest < len(terms)
+
+// C04: "an action that fails ... unless the rule asks for serial actions, does not prevent ... the other executions":
+// the walk hands back an action's disposition (and so stops) only under the serial policy.
+//@ func (*Location).WorkWalk
+//@   assert[C04.action_failure_stops_walk_only_when_serial] at "return era.Disposition": rule.Policies != nil && rule.Policies.SerialActions
